@@ -135,20 +135,6 @@ impl HistMonitor for Twin {
             (Kind::Clone, Op::Clone { .. }) | (Kind::Reload, Op::SaveLoad { .. })
         );
         let pre_reloaded_pos = self.reloaded_pos;
-        // 0. the reloaded graph's own allocator rule, when the graph under test is the reloaded one
-        if let (Op::NextId, Kind::Reload, true, true) = (op, self.kind, self.reloaded_is_main, self.twin.is_some()) {
-            let want = (self.reloaded_pos..s.cap).find(|v| !o.keys_before.contains(v));
-            if let (Ret::Id(id), Some(w)) = (&o.ret, want) {
-                if *id != w && !self.reloaded_first_done {
-                    return Some(format!(
-                        "next_id() on the reloaded graph returned {id}; restarting from the lowest absent id gives {w}"
-                    ));
-                }
-                self.reloaded_pos = id + 1;
-                self.reloaded_first_done = true;
-                ctx.c.inc("twin.reloaded-next_id-checked");
-            }
-        }
         // 1. lock-step: apply the op to the current twin and compare
         if let (Some(tw), false) = (&mut self.twin, is_copy_op) {
             let aligned = match self.kind {
@@ -193,6 +179,13 @@ impl HistMonitor for Twin {
             };
             if matches!(op, Op::NextId) && !twin_next_ok {
                 ctx.c.inc("twin.next_id-skipped-on-twin-outside-quantifier");
+                if self.reloaded_is_main {
+                    // the reloaded graph made its first allocation unobserved by the comparison
+                    self.reloaded_first_done = true;
+                    if let Ret::Id(id) = &o.ret {
+                        self.reloaded_pos = id + 1;
+                    }
+                }
             } else if alloc_dep && !aligned && !matches!(op, Op::NextId) {
                 // ids of new vertices would legitimately differ: end this twin probe here
                 ctx.c.inc("twin.dropped-unaligned-allocator");
@@ -222,19 +215,25 @@ impl HistMonitor for Twin {
                 };
                 if let Op::NextId = op {
                     if self.kind == Kind::Reload {
-                        // each graph obeys its own allocator; the reloaded one restarts from the lowest absent id
-                        if !self.reloaded_is_main {
-                            let want = (self.reloaded_pos..s.cap).find(|v| !keys_before_twin.contains(v));
-                            if let (Ret::Id(id), Some(w)) = (&r, want) {
-                                if *id != w && !self.reloaded_first_done {
+                        // the reloaded graph may restart from the lowest absent id (the one permitted
+                        // difference) or carry on exactly like the original; judged at the first call only
+                        let (rel_ret, rel_keys, orig_ret) = if self.reloaded_is_main {
+                            (main_ret.clone(), o.keys_before.clone(), r.clone())
+                        } else {
+                            (r.clone(), keys_before_twin.clone(), main_ret.clone())
+                        };
+                        if let Ret::Id(id) = &rel_ret {
+                            if !self.reloaded_first_done {
+                                let lowest = (0..s.cap).find(|v| !rel_keys.contains(v));
+                                if Some(*id) != lowest && rel_ret != orig_ret {
                                     return Some(format!(
-                                        "next_id() on the reloaded graph returned {id}; restarting from the lowest absent id gives {w}"
+                                        "next_id() on the reloaded graph returned {id}: neither the lowest absent id ({lowest:?}) nor what the original returns ({orig_ret:?})"
                                     ));
                                 }
-                                self.reloaded_pos = id + 1;
-                                self.reloaded_first_done = true;
                                 ctx.c.inc("twin.reloaded-next_id-checked");
                             }
+                            self.reloaded_first_done = true;
+                            self.reloaded_pos = id + 1;
                         }
                         if aligned && main_ret != r {
                             return Some(format!(
